@@ -215,6 +215,8 @@ func c07R2(c *Ctx) {
 					} else {
 						desc = "map lookup with unverified stores"
 					}
+				} else if _, isConst := strip(l.V).(*ssa.Const); isConst {
+					desc = "constant " + l.V.String() + " (with overwrite the name must be the peer's validated name: an empty name makes the destination directory itself the path)"
 				} else if hasOverwriteTrue(l.facts()) {
 					good, desc = true, "peer name on the Overwrite edge"
 				} else {
